@@ -42,7 +42,8 @@ Inductive qop :=
 | QEstimate (v chain id value : Z)
 | QElect (chain id est : Z) (f : Z * Z * Z)
 | QRemove (chain id : Z)
-| QReassign (chain id relayer : Z).
+| QReassign (chain id relayer : Z)
+| QReplace (chain id body : Z).
 
 Definition to_op (o : qop) : op isig :=
   match o with
@@ -53,6 +54,7 @@ Definition to_op (o : qop) : op isig :=
   | QElect c id e f => OpElect c id e f
   | QRemove c id => OpRemove c id
   | QReassign c id r => OpReassign c id r
+  | QReplace c id b => OpReplace c id b
   end.
 
 Definition res_code (r : res) : Z :=
